@@ -14,9 +14,11 @@ import (
 	"net/http"
 	"os"
 	"path/filepath"
+	"runtime"
 	"sort"
 	"strings"
 	"testing"
+	"time"
 
 	"github.com/folbricht/desync"
 
@@ -872,6 +874,38 @@ func TestSelf(t *testing.T) {
 			fail("%s: oracle did not report %s (got %v)", p.name, p.want, o.Violations)
 		}
 	}
+	// no goroutine, listener or connection outlives a case
+	{
+		settle := func() int {
+			n := runtime.NumGoroutine()
+			for i := 0; i < 500 && n > 0; i++ {
+				time.Sleep(10 * time.Millisecond)
+				if m := runtime.NumGoroutine(); m >= n {
+					return m
+				} else {
+					n = m
+				}
+			}
+			return n
+		}
+		base := settle()
+		c := index
+		c.Via = "server"
+		c.Reqs = []Req{{Method: "GET", Path: "/present.caibx"}, {Method: "HEAD", Path: "/present.caibx"}, {Method: "PUT", Path: "/%zz", Body: "garbage", BodyLen: 70000},
+			{Method: "PUT", Path: "/new.caibx", Body: "valid", BodySeed: 3}, {Method: "GET", Path: "/../victim.caibx"}}
+		for i := 0; i < 40; i++ {
+			runWith(c, realHandler)
+		}
+		after := runtime.NumGoroutine()
+		for i := 0; i < 500 && after > base; i++ {
+			time.Sleep(10 * time.Millisecond)
+			after = runtime.NumGoroutine()
+		}
+		if after > base {
+			fail("goroutines: %d before, %d after 40 server cases", base, after)
+		}
+	}
+
 	// the oracle's own path reading
 	id := strings.Repeat("ab", 32)
 	for _, tc := range []struct {
